@@ -75,6 +75,8 @@ def impl_joint_rho(net, oid_of, order):
     for node in net.nodes:
         for q in node.virtQubits:
             sq = N.resolve(net, q.simQubit)
+            if sq is None:
+                return None
             where[(id(sq.register), sq.num)] = oid_of[net.hid[id(q)]]
     rho = np.eye(d, dtype=complex)
     for node in net.nodes:
@@ -136,7 +138,10 @@ class Runner:
         vi = N.node_index(self.net, q1.virtNode)
         s1, s2 = N.node_index(self.net, q1.simNode), N.node_index(self.net, q2.simNode)
         if s1 == s2:
-            same = N.resolve(self.net, q1.simQubit).register is N.resolve(self.net, q2.simQubit).register
+            a, b = N.resolve(self.net, q1.simQubit), N.resolve(self.net, q2.simQubit)
+            if a is None or b is None:
+                return 0
+            same = a.register is b.register
             if s1 == vi:
                 return 1 if same else 2
             return 3 if same else 4
